@@ -34,7 +34,12 @@ EXPLANATION = (
     "negative value without storing, num_items is incremented exactly once per stored slot (R1); "
     "every bucket[] index is cur_bucket, (cur_bucket + x) mod ARRAY_SIZE(bucket) or a bounded loop "
     "counter, cur_bucket is written once, only by tdma_sched_advance, with (cur_bucket + 1) mod ring "
-    "(R2, who-may-write over the layer1 TUs); tdma_schedule/tdma_schedule_set place items at "
+    "(R2, who-may-write over the layer1 TUs); a ring index that is not in that normal form (division-free wrap: "
+    "compare / subtract with a modulo fall-back, hand-rolled `x < ring-1 ? x+1 : 0`) is decided by value: abstracted "
+    "to a function of (ring position, offset) and evaluated for all ARRAY_SIZE(bucket) positions x every offset of "
+    "the offset's C type (uint8_t: 256) against (cur_bucket + offset) mod ring, a position carried from one loop "
+    "iteration to the next by an induction step evaluated under the path's branch conditions; differences come with "
+    "the concrete position/offset (R2, R3); tdma_schedule/tdma_schedule_set place items at "
     "frame_offset + number of end-of-frame markers consumed (inductive check with a ghost counter), "
     "store the caller's parameters / the set entry with the caller's p3, store nothing for markers "
     "and leave at the end marker (R3); tdma_sched_execute runs the current bucket's items 0..n-1 of "
@@ -1062,6 +1067,7 @@ class A:
             raise AnalysisError("tdma_sched_bucket.item is no longer an array of struct tdma_sched_item")
         self.ctx = Ctx(self.tu)
         self.fns = {}
+        self.folds = []                   # ring indices decided by evaluation: (function, what, exhaustive, text)
         base = os.path.basename(MAIN)
         for name, d in self.tu.functions.items():
             if os.path.basename(d.get("_file") or "") == base and any(kind(c) == "CompoundStmt" for c in kids(d)):
@@ -1290,6 +1296,283 @@ def ring_form(I, S):
     return None
 
 
+# Ring positions decided by VALUE.  An index expression that is not in the normal form (cur_bucket + x) mod ring
+# (a division-free wrap: compare / subtract, `%` only as a fall-back; a hand-rolled `cur < ring-1 ? cur+1 : 0`) is
+# abstracted to a function f(cur, off) of the ring position and the offset term -- every load of cur_bucket becomes
+# the variable `cur`, the offset term D becomes the variable `off` (one addend x of D is replaced by off - (D - x);
+# the linear normal form cancels the rest) -- and f is evaluated for every ring position 0..ring-1 (the invariant R2
+# itself establishes for cur_bucket: zero-initialised, written only by the advance with a value on the ring) and every
+# offset 0..max of the offset's C type (uint8_t: all 256 values -- an exhaustive fold of a finite domain, a proof for
+# every input of that type under the module's integer-conversion assumption; wider types: the first RING_FOLD_CAP
+# offsets, recorded as an open structural proof).  f must equal (cur + off) mod ring everywhere: a difference inside
+# the property's quantifier (offsets 0..ring-1) is a violation with the concrete (position, offset, found, expected),
+# a difference beyond it (offsets of more than one revolution) is "no verdict".  Anything that is not arithmetic /
+# comparison / ?: over cur and off alone, or an intermediate sum that is negative for some input (the terms do not
+# model C's unsigned wrap-around), is not decided here and falls back to the normal-form rule.
+UNDECIDED = ("%s(): bucket index %s is neither in the normal form (cur_bucket + x) mod ring nor a function of the ring "
+             "position and the offset alone that evaluates without negative intermediate values (C's unsigned "
+             "wrap-around is not modelled) -- unclassifiable")
+VCUR, VOFF = ("v", "cur"), ("v", "off")
+RING_FOLD_CAP = 1024
+FOLD_KINDS = {"c", "v", "+", "*", "mod", "div", "cmp", "not", "and", "or", "ite", "&", "|", "^", "<<", ">>"}
+_FOLD_MEMO = {}
+
+
+def cur_loads(I, S):
+    cur = ("fld", S, "cur_bucket")
+    return {t for t in subterms(I) if isinstance(t, tuple) and len(t) == 3 and t[0] == "ld" and t[1] == cur}
+
+
+def infer_offset(I, curt):
+    """The non-constant part D of the sums `cur_bucket + D + const` in I (C0 when cur_bucket only occurs with
+    constants); None when the occurrences disagree."""
+    parts = set()
+    for t in subterms(I):
+        if isinstance(t, tuple) and t[0] == "+" and curt in t[1:]:
+            parts.add(X.add(*[x for x in t[1:] if x != curt and x[0] != "c"]))
+    if not parts:
+        return C0
+    if len(parts) != 1:
+        return None
+    return next(iter(parts))
+
+
+def offset_max(fn, D, node=None):
+    """Largest value of the offset term: by a dominating guard `leaf < constant` at `node`, else by the C types of its
+    leaves (None: unknown)."""
+    if D[0] == "c":
+        return D[1]
+    total = 0
+    for x in (D[1:] if D[0] == "+" else (D,)):
+        if x[0] == "c":
+            total += x[1]
+            continue
+        if x[0] == "phi" and x[2].startswith("#"):
+            continue                      # ghost counter: the count of increments of a typed variable already in D
+        qt = None
+        ub = fn.upper_bound(node, x)[0] if node is not None else None
+        if ub is not None and ub >= 0:
+            total += ub
+            continue
+        if x[0] == "p" and x[1] < len(fn.params):
+            t = int_type(fn.tu, fn.params[x[1]].get("type"))
+        elif fn.is_phi(x):
+            qt = [fn.vtype.get(k[1]) for st in fn.inn.values() for k in st if k[0] == "L" and fn.keyname(k) == x[2]]
+            t = int_type(fn.tu, {"qualType": qt[0]}) if qt and qt[0] else None
+        else:
+            t = None
+        if t is None:
+            return None
+        total += (1 << (t[1] - (1 if t[2] else 0))) - 1
+    return total
+
+
+def fold_leaf(env):
+    """Leaf evaluator for eval_term over the variables of `env`; a sum / product that is negative for the evaluated
+    input is not decided (the value terms are mathematical integers, C's unsigned wrap-around is not modelled)."""
+    def val(t):
+        if t[0] == "v":
+            return env[t[1]]
+        if t[0] in ("+", "*"):
+            r = 0 if t[0] == "+" else 1
+            for y in t[1:]:
+                if t[0] == "+" and y[0] == "*":
+                    p = 1
+                    for z in y[1:]:
+                        p *= eval_term(z, val)
+                    r += p
+                elif t[0] == "+":
+                    r += eval_term(y, val)
+                else:
+                    r *= eval_term(y, val)
+            if r < 0:
+                raise Unknown()
+            return r
+        return None
+    return val
+
+
+def foldable(f):
+    return not any(isinstance(t, tuple) and (t[0] not in FOLD_KINDS or (t[0] == "v" and t not in (VCUR, VOFF)))
+                   for t in subterms(f))
+
+
+def ring_step(a, fn, t, S, BN, D, delta, atoms, what):
+    """Induction step of a ring position that is carried from one loop iteration to the next (`if (++nr >= ring)
+    nr = 0;` instead of recomputing (cur_bucket + offset) mod ring): under the hypothesis BN == (cur_bucket + D) mod
+    ring at the loop head, is the value t that reaches the loop head over one path == (cur_bucket + D + delta) mod
+    ring?  Evaluated for every ring position and offset that satisfies the path's branch conditions (`atoms`: those
+    over the carried position / the offset are evaluated, those over other state -- the entry's callback -- are
+    independent of the position).  -> (ok, text) | None (not decidable here)."""
+    ring = a.NFR
+    loads = cur_loads(t, S)
+    for at in atoms:
+        loads |= cur_loads(at[1], S) | cur_loads(at[2], S)
+    if len(loads) > 1 or D[0] == "c":
+        return None
+    adds = D[1:] if D[0] == "+" else (D,)
+    cand = [y for y in adds if y[0] == "p"]
+    if not cand:
+        return None
+    x, rest = cand[0], X.sub(D, cand[0])
+    hyp = ("mod", X.add(VCUR, VOFF), X.C(ring))
+
+    def leaf(y):
+        if y in loads:
+            return VCUR
+        if y == BN:
+            return hyp
+        if y == x:
+            return X.sub(VOFF, rest)
+        return None
+    f = rebuild(t, leaf)
+    if not foldable(f):
+        return None
+    conds = []
+    for at in atoms:
+        l, r = rebuild(at[1], leaf), rebuild(at[2], leaf)
+        if foldable(l) and foldable(r):
+            conds.append((at[0], l, r, at[3]))
+        elif any(v in (VCUR, VOFF) for v in list(subterms(l)) + list(subterms(r))):
+            return None                   # a condition that mixes the position with other state
+    dm = offset_max(fn, D)
+    exhaustive = dm is not None and dm < RING_FOLD_CAP
+    dmax = dm if exhaustive else RING_FOLD_CAP - 1
+    env = {}
+    val = fold_leaf(env)
+    bad = None
+    feasible = 0
+    try:
+        for d in range(dmax + 1):
+            for c in range(ring):
+                env.update(cur=c, off=d)
+                holds = True
+                for (op, l, r, pol) in conds:
+                    lv, rv = eval_term(l, val), eval_term(r, val)
+                    if ((lv < rv) if op == "<" else (lv == rv)) != pol:
+                        holds = False
+                        break
+                if not holds:
+                    continue
+                feasible += 1
+                got, want = eval_term(f, val), (c + d + delta) % ring
+                if got != want:
+                    bad = (c, d, got, want)
+                    break
+            if bad is not None:
+                break
+    except Unknown:
+        return None
+    if bad is not None:
+        c, d, got, want = bad
+        return False, "%s carried into the next iteration is %d instead of %d when it was %d (cur_bucket=%d, offset %s=%d)" % (
+            show(t), got, want, (c + d) % ring, c, show(D), d)
+    a.folds.append((fn.name, what, exhaustive, "induction step evaluated"))
+    if not feasible:
+        return True, "path never taken for a position on the ring"
+    return True, "(previous position + %d) mod %d for all %d ring positions x offset %s in 0..%d (induction step evaluated)" % (
+        delta, ring, ring, show(D), dmax)
+
+
+def ring_fold(fn, I, S, ring, D=None, base=0, node=None):
+    """Decide I == (cur_bucket + D + base) mod ring by evaluation (see above).  D None: the offset term is inferred and
+    the rotation constant is f(0, 0) (R2: any fixed rotation of the ring position stays on the ring).
+    -> None (not decidable here) | dict(ok, quant, text, exhaustive, D)"""
+    loads = cur_loads(I, S)
+    inferred = D is None
+    if len(loads) > 1 or (inferred and not loads):
+        return None
+    curt = next(iter(loads)) if loads else None       # no load: an index that ignores the ring position is decided too
+    if inferred:
+        D = infer_offset(I, curt)
+        if D is None:
+            return None
+    x = rest = None
+    if D[0] != "c":
+        adds = D[1:] if D[0] == "+" else (D,)
+        cand = [t for t in adds if t[0] == "p"] or [t for t in adds if t[0] not in ("c", "*")]
+        if not cand:
+            return None
+        x = cand[0]
+        rest = X.sub(D, x)
+        dfix = None
+    else:
+        dfix = D[1]
+        if inferred:
+            dfix = 0
+
+    def leaf(t):
+        if t == curt:
+            return VCUR
+        if x is not None and t == x:
+            return X.sub(VOFF, rest)
+        return None
+    f = rebuild(I, leaf)
+    if not foldable(f):
+        return None
+    if x is not None:
+        dm = offset_max(fn, D, node)
+        exhaustive = dm is not None and dm < RING_FOLD_CAP
+        dmax = dm if exhaustive else RING_FOLD_CAP - 1
+        offs = range(0, dmax + 1)
+    else:
+        exhaustive, offs = True, (dfix,)
+    key = (f, ring, tuple(offs) if len(offs) == 1 else (offs[0], offs[-1]), base, inferred, D, exhaustive)
+    if key in _FOLD_MEMO:
+        res = _FOLD_MEMO[key]
+        return dict(res, D=D) if res is not None else None
+    env = {}
+    val = fold_leaf(env)
+    rot = base
+    bad_in = bad_out = None
+    res = None
+    try:
+        if inferred:
+            env.update(cur=0, off=0)
+            rot = eval_term(f, val)
+        for d in offs:
+            for c in range(ring):
+                env.update(cur=c, off=d)
+                got = eval_term(f, val)
+                want = (c + d + rot) % ring
+                if got != want:
+                    w = (c, d, got, want)
+                    if d < ring and bad_in is None:
+                        bad_in = w
+                    elif d >= ring and bad_out is None:
+                        bad_out = w
+            if bad_in is not None or (bad_out is not None and d >= ring):
+                break
+        offtxt = "offset %s" % show(D) if x is not None else None
+        dom = "all %d ring positions" % ring + (" x %s in 0..%d" % (offtxt, offs[-1]) if x is not None else "")
+        target = "(cur_bucket + %s) mod %d" % (show(X.add(D if not inferred or x is not None else C0, X.C(rot))), ring)
+        if bad_in is not None or bad_out is not None:
+            c, d, got, want = bad_in or bad_out
+            text = "differs from %s at cur_bucket=%d%s: %d instead of %d" % (
+                target, c, ", %s=%d" % (offtxt, d) if x is not None else "", got, want)
+        else:
+            text = "equals %s for %s (evaluated)" % (target, dom)
+        res = {"ok": bad_in is None and bad_out is None, "quant": bad_in is not None, "text": text,
+               "exhaustive": exhaustive, "rot": rot}
+    except Unknown:
+        res = None
+    _FOLD_MEMO[key] = res
+    return dict(res, D=D) if res is not None else None
+
+
+def ring_decide(a, fn, I, S, D, what, node=None):
+    """Placement of a bucket index by value, for an index that is not in the normal form: (ok, text) or None when the
+    fold cannot decide it.  A difference outside the property's quantifier is no verdict."""
+    r = ring_fold(fn, I, S, a.NFR, D, node=node)
+    if r is None:
+        return None
+    if not r["ok"] and not r["quant"]:
+        raise AnalysisError("%s(): %s %s -- for offsets below the ring size it is the scheduled frame; offsets of a "
+                            "revolution or more are outside the property's quantifier, no verdict" % (fn.name, what, r["text"]))
+    a.folds.append((fn.name, what, r["exhaustive"] or not r["ok"], r["text"]))
+    return r["ok"], r["text"]
+
+
 def key_by_name(fn, kn):
     for st in fn.inn.values():
         for k in st:
@@ -1324,7 +1607,7 @@ def counter_leaves(fn, I):
     return starts, steps
 
 
-def classify_index(fn, site, ring):
+def classify_index(fn, site, ring, a=None):
     """-> (ok, text) ; raises AnalysisError when the index shape is unknown."""
     I, S = site["idx"], site["S"]
 
@@ -1344,13 +1627,57 @@ def classify_index(fn, site, ring):
         return verdict(rf)
     if I[0] == "c":
         raise AnalysisError("%s(): constant bucket index %s -- unclassifiable" % (fn.name, show(I)))
+    if a is not None and cur_loads(I, S):
+        r = ring_decide(a, fn, I, S, None, "bucket index %s" % show(I), site["node"])
+        if r is not None:
+            return r
     if fn.is_phi(I):
         h = phi_node(fn, I)
         lv = fn.leaves([key_by_name(fn, I[2])], h)
         nonself = [vals[0] for (p, l, vals, inside) in lv if vals[0] != I]
-        forms = [ring_form(v, S) for v in nonself]
+
+        def by_value(v):
+            f = ring_form(v, S)
+            if f is not None:
+                return verdict(f)
+            if a is not None and cur_loads(v, S):
+                return ring_decide(a, fn, v, S, None, "bucket index %s" % show(v), site["node"])
+            return None
+
+        def by_range(p, l, v):
+            """A value reaching the merge that is a constant or a step from the merged position itself (`if (++nr >=
+            ring) nr = 0;`): induction on "the position is on the ring" -- for every position 0..ring-1 that satisfies
+            the branch conditions of the path, the value is on the ring again."""
+            def leaf(y):
+                return VCUR if y == I else None
+            f = rebuild(v, leaf)
+            if a is None or not foldable(f) or VOFF in subterms(f):
+                return None
+            conds = []
+            for at in fn.edge_atoms(p, l):
+                x, y = rebuild(at[1], leaf), rebuild(at[2], leaf)
+                if foldable(x) and foldable(y) and VOFF not in subterms(x) and VOFF not in subterms(y):
+                    conds.append((at[0], x, y, at[3]))
+                elif VCUR in subterms(x) or VCUR in subterms(y):
+                    return None
+            env = {}
+            val = fold_leaf(env)
+            try:
+                for c in range(ring):
+                    env["cur"] = c
+                    if any((((eval_term(x, val) < eval_term(y, val)) if op == "<" else
+                             (eval_term(x, val) == eval_term(y, val))) != pol) for (op, x, y, pol) in conds):
+                        continue
+                    got = eval_term(f, val)
+                    if not 0 <= got < ring:
+                        return False, "position %d is followed by %d (%s)" % (c, got, show(v))
+            except Unknown:
+                return None
+            a.folds.append((fn.name, "bucket index %s" % show(I), True, "induction step evaluated"))
+            return True, "stepped position kept in [0, %d] (evaluated for every position)" % (ring - 1)
+        forms = [by_value(v) for v in nonself]
         if nonself and all(f is not None for f in forms):
-            res = [verdict(f) for f in forms]
+            res = forms
             bad = [t for ok, t in res if not ok]
             if bad:
                 return False, bad[0]
@@ -1362,6 +1689,15 @@ def classify_index(fn, site, ring):
             if ub is None:
                 return False, "loop counter without an upper bound"
             return ub <= ring - 1, "loop counter in [%d, %d]" % (min(v[1] for v in cl[0]), ub)
+        if fn.upper_bound(site["node"], I)[0] is None:
+            # no bound at the use: the position must be on the ring at the merge itself, by induction over its sources
+            forms = [f or by_range(p, l, vals[0]) for f, (p, l, vals, inside) in
+                     zip(forms, [x for x in lv if x[2][0] != I])]
+            if nonself and all(f is not None for f in forms):
+                bad = [t for ok, t in forms if not ok]
+                if bad:
+                    return False, bad[0]
+                return True, "ring position on every path: " + " | ".join(sorted({t for ok, t in forms}))
     raise AnalysisError("%s(): bucket index %s is neither cur_bucket, a wrapped offset nor a bounded loop counter "
                         "-- unclassifiable" % (fn.name, show(I)))
 
@@ -1404,7 +1740,7 @@ def r2_ring(a):
     for name, fn in a.fns.items():
         for site in fn.sites:
             nsites += 1
-            ok, text = classify_index(fn, site, ring)
+            ok, text = classify_index(fn, site, ring, a)
             a.ob(R, name, "%s(): index %s.bucket[%s] stays on the ring of %d frames" % (
                 name, show(site["S"]), show(site["idx"]), ring),
                 "cur_bucket | (cur_bucket + offset) mod %d | loop counter in [0, %d]" % (ring, ring - 1),
@@ -1446,13 +1782,22 @@ def r2_ring(a):
     wb = a.fns.get("wrap_bucket")
     if wb is not None:
         vals = {r["val"] for r in wb.rets}
-        if len(vals) != 1 or len(wb.params) != 1:
-            raise AnalysisError("wrap_bucket(): not a single-valued one-argument helper -- unclassifiable")
-        v = next(iter(vals))
+        # one returned value, or several return statements selected by branch conditions (compare / subtract with a
+        # modulo fall-back): the result as one ?: term over the entry state
+        v = next(iter(vals)) if len(vals) == 1 else (wb.decision() if vals and not wb.stores and not wb.world else None)
+        if (len(vals) != 1 and v is None) or len(wb.params) != 1:
+            raise AnalysisError("wrap_bucket(): not a one-argument helper whose result is a term over its argument and "
+                                "the ring position -- unclassifiable")
+        pw = ("p", 0, wb.params[0].get("name"))
         rf = ring_form(v, SCHED) if v is not None else None
-        good = rf is not None and rf[0] == "wrap" and rf[2] == ring and rf[1] == ("p", 0, wb.params[0].get("name"))
+        good = rf is not None and rf[0] == "wrap" and rf[2] == ring and rf[1] == pw
+        found = show(v) if v is not None else "nothing"
+        if rf is None and v is not None:
+            r = ring_decide(a, wb, v, SCHED, pw, "the result of wrap_bucket()")
+            if r is not None:
+                good, found = r[0], (found if not r[0] else "") + (" -- " if not r[0] else "") + r[1]
         a.ob(R, "wrap_bucket", "wrap_bucket(offset) is (cur_bucket + offset) reduced modulo ARRAY_SIZE(bucket)",
-             "(sched.cur_bucket + offset) mod %d" % ring, show(v) if v is not None else "nothing", good,
+             "(sched.cur_bucket + offset) mod %d" % ring, found, good,
              wb.rets[0]["node"] if wb.rets else None)
     writers = []
     for name, fn in a.fns.items():
@@ -1474,6 +1819,15 @@ def r2_ring(a):
         found = show(val) if val is not None else s["how"]
         if rf is not None and rf[0] == "wrap" and rf[3][2] != entry_ver:
             found += " (of an already advanced position)"
+        if rf is None and s["how"] == "assign" and val is not None:
+            loads = cur_loads(val, s["lv"][1])
+            r = ring_decide(a, fn, val, s["lv"][1], C1, "the new ring position") if len(loads) == 1 else None
+            if r is not None:
+                good = r[0] and next(iter(loads))[2] == entry_ver
+                if r[0]:
+                    found = r[1] + ("" if good else " (of an already advanced position)")
+                else:
+                    found += " -- " + r[1]
         a.ob(R, name, "tdma_sched_advance sets cur_bucket to (cur_bucket + 1) mod ARRAY_SIZE(bucket): %s" % found,
              "(sched.cur_bucket + 1) mod %d" % ring, found, good, s["node"])
     adv = a.fns["tdma_sched_advance"]
@@ -1500,8 +1854,15 @@ def r3_single(a):
     p0 = ("p", 0, fn.params[0].get("name"))
     rf = ring_form(B[2], B[1][1])
     good = rf is not None and rf[0] == "wrap" and rf[1] == p0 and rf[2] == a.NFR
+    found = show(B[2])
+    if rf is None:
+        r = ring_decide(a, fn, B[2], B[1][1], p0, "the bucket tdma_schedule stores into")
+        if r is not None:
+            good, found = r[0], r[1] if r[0] else found + " -- " + r[1]
+        else:
+            raise AnalysisError(UNDECIDED % (name, found))
     a.ob(R, name, "tdma_schedule stores into the bucket frame_offset frames after the current one",
-         "(cur_bucket + %s) mod %d" % (p0[2], a.NFR), show(B[2]), good, sts[0]["node"])
+         "(cur_bucket + %s) mod %d" % (p0[2], a.NFR), found, good, sts[0]["node"])
     fields = slot_contents(fn, slot, sts)
     for i, f in enumerate(("cb", "p1", "p2", "p3", "prio")):
         want = ("p", i + 1, fn.params[i + 1].get("name"))
@@ -1623,9 +1984,15 @@ def r3_set(a):
         return rebuild(t, lambda x: sigma.get(x))
 
     def placed(t, kv):
-        """is bucket index t == (cur + frame_offset + kv) mod ring ?"""
-        rf = ring_form(sub(t), S)
-        return rf is not None and rf[0] == "wrap" and rf[2] == a.NFR and rf[1] == X.add(p0, kv)
+        """is bucket index t == (cur + frame_offset + kv) mod ring ?  -> (ok, found text)"""
+        t = sub(t)
+        rf = ring_form(t, S)
+        if rf is None:
+            r = ring_decide(a, fn, t, S, X.add(p0, kv), "the bucket index of tdma_schedule_set")
+            if r is not None:
+                return r[0], "bucket index " + (r[1] if r[0] else show(t) + " -- " + r[1])
+            raise AnalysisError(UNDECIDED % (name, show(t)))
+        return rf is not None and rf[0] == "wrap" and rf[2] == a.NFR and rf[1] == X.add(p0, kv), "bucket index %s" % show(t)
     res = {"first": [], "marker": [], "item": []}
     if fn.is_phi(BN) and BN[3] == h.id:
         for (p, l, vals, inside) in fn.leaves([key_by_name(fn, BN[2]), K], h):
@@ -1635,13 +2002,21 @@ def r3_set(a):
                 good = kv == Kh
                 txt = "bucket index unchanged"
             else:
-                good = placed(v, kv)
-                txt = "bucket index %s" % show(sub(v))
+                r = None
+                dl = X.sub(kv, Kh)
+                if inside and dl[0] == "c" and not cur_loads(sub(v), S) and ring_form(sub(v), S) is None:
+                    # a position stepped from the previous iteration's: induction step under the path's conditions
+                    r = ring_step(a, fn, sub(v), S, BN, X.add(p0, Kh), dl[1],
+                                  [(at[0], sub(at[1]), sub(at[2]), at[3]) for at in fn.edge_atoms(p, l)],
+                                  "the bucket index tdma_schedule_set carries from frame to frame")
+                good, txt = r if r is not None else placed(v, kv)
+                if r is not None and not good:
+                    txt = "bucket index " + txt
             res[cls].append((good, txt))
     else:
-        good = placed(BN, Kh)
+        good, txt = placed(BN, Kh)
         for cls in res:
-            res[cls].append((good, "bucket index %s" % show(sub(BN))))
+            res[cls].append((good, txt))
     want = {"first": "(cur_bucket + %s) mod %d" % (p0[2], a.NFR),
             "marker": "frame offset advanced by one and bucket = (cur_bucket + offset) mod %d recomputed" % a.NFR,
             "item": "bucket index and frame offset unchanged"}
@@ -2682,6 +3057,16 @@ def who_may_write(a, tier):
     a.L.floor("C08.R2", "layer1 translation units scanned for writers of the scheduler ring", len(files), floor)
 
 
+def ring_proofs(a):
+    """Structural record of the ring indices that were decided by evaluation instead of by normal form: closed when
+    every one of them was folded over the whole finite domain (all ring positions x every offset its C type / its
+    dominating bound admits), open when an offset of a wide type was folded up to RING_FOLD_CAP only."""
+    for (fname, what, closed, text) in a.folds:
+        a.ob("C08.R2", fname, "%s(): %s equals (cur_bucket + offset) mod ring on the whole domain of the offset" % (
+            fname, what if len(what) < 120 else what[:117] + "..."),
+            "folded for every offset of the offset's type", text, closed)
+
+
 def run(L, tier):
     a = A(L)
     a.sort = None
@@ -2696,3 +3081,6 @@ def run(L, tier):
     L.stage(r5_sort, a, sort)
     L.stage(r6_prio_width, a, sort)
     L.stage(r7_reset, a)
+    if a.folds:
+        L.structural("C08.R2/R3: ring indices outside the normal form (cur_bucket + x) mod %d are that value for every "
+                     "ring position and every offset (exhaustive fold of the finite domain)" % a.NFR, ring_proofs, a)
